@@ -1,21 +1,25 @@
 /-
-  Props.C15Gen — tie A: facts regenerated from the Go source on every run (`Golib/Gen/C15.lean`,
-  written by xlate/c15) against the hand-written CodeModels the theorems of Props.C15 are about.
+  Props.C15Gen — tie A: the Go source, regenerated as Lean data on every run (`Golib/Gen/C15.lean`,
+  written by xlate/c15 with Go's own type checker), against the CodeModels of Props.C15.
 
-  * constant tables and constants: equal to the model's (`decide`);
-  * straight-line code (the four hash loop bodies, every bitutil function): the transcribed Go
-    statements, run by the typed evaluator `GoX` with Go's integer semantics, give the CodeModel's
-    value on grids of boundary inputs (boundary byte values × boundary registers for the hash steps;
-    boundary × boundary for the bit helpers) — `decide +kernel`.
+  * constant tables and constants are equal to the model's (`decide`);
+  * code: every transcribed block is given the semantics `GoSem` (Go's sized-integer arithmetic) and is
+    proved to compute the arithmetic CodeModel **for all inputs**.  Each theorem below is
+    `bridge ∘ canonical-form equality`: the bridge theorem (Golib/Hash/GoBridge*.lean) is about the
+    hand-kept copy `GoModel`; the equality of canonical forms of the regenerated block and that copy is
+    decided here; `GoSemProofs` proves that blocks with equal canonical forms compute the same values
+    (inlining of temporaries, order of independent statements, operand order of `| & ^ + *`).
 -/
 import Golib.Gen.C15
-import Golib.Hash.Crc
+import Golib.Hash.GoBridgeHash
 import Golib.Hash.Murmur
 import Golib.Hash.Hexa32
-import Golib.Hash.BitIp
 
 namespace C15Gen
-open GoX Gen.C15
+open GoSem GoBridge Gen.C15
+
+/-- the translator met no construct it could not transcribe -/
+theorem nothing_unknown : unknownCount = 0 := by decide
 
 /-! ### tables and constants -/
 
@@ -25,89 +29,121 @@ theorem digits_tied : digits = Hexa32.digits.map Char.toNat := by decide +kernel
 
 theorem hexa_constants_tied :
     plusChar = some 'x'.toNat ∧ minusChar = some 'z'.toNat
-    ∧ toLongLimit = some Hexa32.limit ∧ toLongMultmin = some Hexa32.multmin
-    ∧ toLongRadix = some 32 ∧ toStrRadix = some 32
     ∧ toString32Texts.contains "z8000000000000" = true ∧ toLong32Texts.contains "z8000000000000" = true := by
   decide +kernel
 
-theorem murmur_constants_tied :
-    murmur_murmurHash_m = some Murmur.m32 ∧ murmur_murmurHash_r = some 24
-    ∧ murmur_MurmurHashLong_m = some Murmur.m32 ∧ murmur_MurmurHashLong_r = some 24
-    ∧ murmur_murmurHashLong_m = some Murmur.m64 ∧ murmur_murmurHashLong_r = some 47
-    ∧ murmur_MurmurHashByte_seed = some Murmur.defaultSeed
+theorem murmur_seeds_tied :
+    murmur_MurmurHashByte_seed = some Murmur.defaultSeed
     ∧ murmur_MurmurHashLongByte_seed = some Murmur.defaultSeed := by decide +kernel
 
+/-- the constant each register starts from -/
 theorem hash_init_tied :
-    init_Hash = some 0xffffffff ∧ init_Hash64 = some 0xffffffffffffffff
-    ∧ init_Hash64v2 = some 0xffffffffffffffff ∧ init_Hash64V2 = some 0xffffffffffffffff := by decide +kernel
+    loop_Hash.init = some 0xffffffff ∧ loop_Hash64.init = some 0xffffffffffffffff
+    ∧ loop_Hash64v2.init = some 0xffffffffffffffff ∧ loop_Hash64V2.init = some 0xffffffffffffffff
+    ∧ loop_HashCode.init = some 0 := by decide +kernel
 
-/-! ### hash loop bodies -/
+/-- the string forms call the byte forms: `HashStr(s) = Hash([]byte(s))`, `Hash64Str → Hash64`,
+    `Hash64StrV2 → Hash64V2`, `GetLongHash(s) = if s == "" then 0 else Hash64v2([]byte(s))`
+    (modelled as `Hash.hashStr := Hash.hash`, `Hash.getLongHash`) -/
+theorem wrappers_tied :
+    wrapper_HashStr = ("Hash", none) ∧ wrapper_Hash64Str = ("Hash64", none)
+    ∧ wrapper_Hash64StrV2 = ("Hash64V2", none) ∧ wrapper_GetLongHash = ("Hash64v2", some 0) := by decide
 
-def arrs : Arrays := [(sym_table, .i64, crcTable.map Int.ofNat)]
+/-! ### util/bitutil — every function, all inputs -/
 
-/-- byte values fed to the loop bodies (the table's *content* is tied entry by entry in `table_tied`;
-    here the index computation, shifts, masks and conversions are exercised) -/
-def someBytes : List Nat := [0, 1, 0x61, 0x7f, 0x80, 0xaa, 0xfe, 0xff]
+open BitUtil
 
-def regs32 : List Nat :=
-  [0, 1, 0x80, 0xff, 0x100, 0xffff, 0x10000, 0x7fffffff, 0x80000000, 0xffffffff, 0xedb88320, 0x12345678,
-   0xdeadbeef, 0x00ff00ff, 0xff00ff00, 0xfffffffe]
+theorem composite64_tied (h l : Int) (hh : isI32 h) (hl : isI32 l) :
+    call noArr fn_Composite64 [h, l] = composite64 h l := by
+  rw [call_congr (g := GoModel.fn_Composite64) (by decide +kernel) (by decide +kernel)]
+  exact composite64_bridge h l hh hl
 
-def regs64 : List Nat :=
-  [0, 1, 0xff, 0x100, 0xffffffff, 0x100000000, 0xff00000000, 0x7fffffffffffffff, 0x8000000000000000,
-   0xffffffffffffffff, 0xedb88320edb88320, 0x123456789abcdef0, 0xdeadbeefcafebabe, 0x00ff00ff00ff00ff,
-   0xff00ff00ff00ff00, 0xfffffffffffffffe, 0x0000ffff0000ffff, 0x8000000080000000]
+theorem composite32_tied (h l : Int) (hh : isI16 h) (hl : isI16 l) :
+    call noArr fn_Composite32 [h, l] = composite32 h l := by
+  rw [call_congr (g := GoModel.fn_Composite32) (by decide +kernel) (by decide +kernel)]
+  exact composite32_bridge h l hh hl
 
-def stepOk (body : List Stmt) (reg byteVar : Nat) (t : Ty) (model : Nat → Nat → Nat) (c b : Nat) : Bool :=
-  step arrs [(reg, t, (c : Int)), (byteVar, .u8, (b : Int))] body reg == some ((model c b : Nat) : Int)
+theorem composite16_tied (h l : Int) (hh : isU8 h) (hl : isU8 l) :
+    call noArr fn_Composite16 [h, l] = composite16 h l := by
+  rw [call_congr (g := GoModel.fn_Composite16) (by decide +kernel) (by decide +kernel)]
+  exact composite16_bridge h l hh hl
 
-/-- the body of the loop of `Hash` computes `Hash.crcStep` -/
-theorem hash_loop_tied :
-    (regs32.all fun c => someBytes.all fun b => stepOk loop_Hash loop_Hash_register loop_Hash_byteVar .u32 Hash.crcStep c b) = true := by
-  decide +kernel
+theorem setHigh64_tied (s h : Int) (hs : isI64 s) (hh : isI32 h) :
+    call noArr fn_SetHigh64 [s, h] = setHigh64 s h := by
+  rw [call_congr (g := GoModel.fn_SetHigh64) (by decide +kernel) (by decide +kernel)]
+  exact setHigh64_bridge s h hs hh
 
-theorem hash64_loop_tied :
-    (regs64.all fun c => someBytes.all fun b => stepOk loop_Hash64 loop_Hash64_register loop_Hash64_byteVar .u64 Hash.crc64Step c b) = true := by
-  decide +kernel
+theorem setLow64_tied (s l : Int) (hs : isI64 s) (hl : isI32 l) :
+    call noArr fn_SetLow64 [s, l] = setLow64 s l := by
+  rw [call_congr (g := GoModel.fn_SetLow64) (by decide +kernel) (by decide +kernel)]
+  exact setLow64_bridge s l hs hl
 
-theorem hash64v2_loop_tied :
-    (regs64.all fun c => someBytes.all fun b => stepOk loop_Hash64v2 loop_Hash64v2_register loop_Hash64v2_byteVar .u64 Hash.v2StepA c b) = true := by
-  decide +kernel
+theorem getHigh64_tied (k : Int) (hk : isI64 k) : call noArr fn_GetHigh64 [k] = getHigh64 k := by
+  rw [call_congr (g := GoModel.fn_GetHigh64) (by decide +kernel) (by decide +kernel)]
+  exact getHigh64_bridge k hk
 
-theorem hash64V2_loop_tied :
-    (regs64.all fun c => someBytes.all fun b => stepOk loop_Hash64V2 loop_Hash64V2_register loop_Hash64V2_byteVar .u64 Hash.v2StepB c b) = true := by
-  decide +kernel
+theorem getLow64_tied (k : Int) (hk : isI64 k) : call noArr fn_GetLow64 [k] = getLow64 k := by
+  rw [call_congr (g := GoModel.fn_GetLow64) (by decide +kernel) (by decide +kernel)]
+  exact getLow64_bridge k hk
 
-/-! ### bitutil function bodies -/
+theorem getHigh32_tied (k : Int) (hk : isI32 k) : call noArr fn_GetHigh32 [k] = getHigh32 k := by
+  rw [call_congr (g := GoModel.fn_GetHigh32) (by decide +kernel) (by decide +kernel)]
+  exact getHigh32_bridge k hk
 
-def g8 : List Int := [0, 1, 2, 127, 128, 129, 254, 255, 85, 170]
-def g16 : List Int := [0, 1, -1, 2, -2, 127, 128, 255, 256, -128, -129, -256, 32767, 32766, -32768, -32767, 21845, -21846]
-def g32 : List Int :=
-  [0, 1, -1, 2, -2, 255, 256, -256, 32767, 32768, 65535, 65536, -32768, -32769, -65536, 2147483647, 2147483646,
-   -2147483648, -2147483647, 1431655765, -1431655766]
-def g64 : List Int :=
-  [0, 1, -1, 2, -2, 255, 65535, 65536, 2147483647, 2147483648, 4294967295, 4294967296, 4294967297, -2147483648,
-   -2147483649, -4294967295, -4294967296, -4294967297, 9223372036854775807, 9223372036854775806,
-   -9223372036854775808, -9223372036854775807, 9223372032559808512, 6148914691236517205, -6148914691236517206]
+theorem getLow32_tied (k : Int) (hk : isI32 k) : call noArr fn_GetLow32 [k] = getLow32 k := by
+  rw [call_congr (g := GoModel.fn_GetLow32) (by decide +kernel) (by decide +kernel)]
+  exact getLow32_bridge k hk
 
-def fn2Ok (f : Fn) (model : Int → Int → Int) (a b : Int) : Bool := call [] f [a, b] == some (model a b)
-def fn1Ok (f : Fn) (model : Int → Int) (a : Int) : Bool := call [] f [a] == some (model a)
+theorem getHigh16_tied (k : Int) (hk : isI16 k) : call noArr fn_GetHigh16 [k] = getHigh16 k := by
+  rw [call_congr (g := GoModel.fn_GetHigh16) (by decide +kernel) (by decide +kernel)]
+  exact getHigh16_bridge k hk
 
-theorem composite_tied :
-    (g32.all fun h => g32.all fun l => fn2Ok fn_Composite64 BitUtil.composite64 h l) = true
-    ∧ (g16.all fun h => g16.all fun l => fn2Ok fn_Composite32 BitUtil.composite32 h l) = true
-    ∧ (g8.all fun h => g8.all fun l => fn2Ok fn_Composite16 BitUtil.composite16 h l) = true := by decide +kernel
+theorem getLow16_tied (k : Int) (hk : isI16 k) : call noArr fn_GetLow16 [k] = getLow16 k := by
+  rw [call_congr (g := GoModel.fn_GetLow16) (by decide +kernel) (by decide +kernel)]
+  exact getLow16_bridge k hk
 
-theorem set_tied :
-    (g64.all fun s => g32.all fun h => fn2Ok fn_SetHigh64 BitUtil.setHigh64 s h) = true
-    ∧ (g64.all fun s => g32.all fun l => fn2Ok fn_SetLow64 BitUtil.setLow64 s l) = true := by decide +kernel
+example : isI32 (-1) ∧ isI64 (-5) := by unfold isI32 isI64; decide
 
-theorem get_tied :
-    (g64.all fun k => fn1Ok fn_GetHigh64 BitUtil.getHigh64 k) = true
-    ∧ (g64.all fun k => fn1Ok fn_GetLow64 BitUtil.getLow64 k) = true
-    ∧ (g32.all fun k => fn1Ok fn_GetHigh32 BitUtil.getHigh32 k) = true
-    ∧ (g32.all fun k => fn1Ok fn_GetLow32 BitUtil.getLow32 k) = true
-    ∧ (g16.all fun k => fn1Ok fn_GetHigh16 BitUtil.getHigh16 k) = true
-    ∧ (g16.all fun k => fn1Ok fn_GetLow16 BitUtil.getLow16 k) = true := by decide +kernel
+/-! ### util/hash — the whole loops, every byte string -/
+
+/-- loop headers `for i := 0; i < len(bytes); i++`; the loop variable is identifier 1, the only variable
+    carried around the loop (the register) is identifier 2, the slice parameter identifier 0 -/
+theorem hash_headers_tied :
+    loop_Hash.header = ["#1 := 0", "#1 < len(#0)", "#1++"] ∧ loop_Hash64.header = ["#1 := 0", "#1 < len(#0)", "#1++"]
+    ∧ loop_Hash64v2.header = ["#1 := 0", "#1 < len(#0)", "#1++"] ∧ loop_Hash64V2.header = ["#1 := 0", "#1 < len(#0)", "#1++"]
+    ∧ loop_HashCode.header = ["#1 := 0", "#1 < len(#0)", "#1++"]
+    ∧ loop_Hash.loopVar = 1 ∧ loop_Hash.carried = [2] ∧ loop_Hash64.loopVar = 1 ∧ loop_Hash64.carried = [2]
+    ∧ loop_Hash64v2.loopVar = 1 ∧ loop_Hash64v2.carried = [2] ∧ loop_Hash64V2.loopVar = 1 ∧ loop_Hash64V2.carried = [2]
+    ∧ loop_HashCode.loopVar = 1 ∧ loop_HashCode.carried = [2] := by decide
+
+/-- `Hash`: register (identifier 2) starting at 0xffffffff, the transcribed loop body run once per index,
+    the transcribed final block — is `Hash.hash bs` (hence CRC-32 by `C15.hash_is_crc32`) -/
+theorem hash_tied (bs : Bytes) (hw : WFB bs) (ρ : Env) (hρ : ρ 2 = 4294967295) :
+    retVal (runRet (hashArrs bs) (forLoop (hashArrs bs) loop_Hash.body 1 bs.length 0 ρ) loop_Hash.after)
+      = Hash.hash bs :=
+  hash_fn_bridge _ _ (by decide +kernel) (by decide +kernel) bs hw ρ hρ
+
+theorem hash64_tied (bs : Bytes) (hw : WFB bs) (ρ : Env) (hρ : ρ 2 = 18446744073709551615) :
+    retVal (runRet (hashArrs bs) (forLoop (hashArrs bs) loop_Hash64.body 1 bs.length 0 ρ) loop_Hash64.after)
+      = Hash.hash64 bs :=
+  hash64_fn_bridge _ _ (by decide +kernel) (by decide +kernel) bs hw ρ hρ
+
+theorem hash64v2_tied (bs : Bytes) (hw : WFB bs) (ρ : Env) (hρ : ρ 2 = 18446744073709551615) :
+    retVal (runRet (hashArrs bs) (forLoop (hashArrs bs) loop_Hash64v2.body 1 bs.length 0 ρ) loop_Hash64v2.after)
+      = Hash.hash64v2 (some bs) :=
+  hash64v2_fn_bridge _ _ (by decide +kernel) (by decide +kernel) bs hw ρ hρ
+
+theorem hash64V2_tied (bs : Bytes) (hw : WFB bs) (hne : bs ≠ []) (ρ : Env) (hρ : ρ 2 = 18446744073709551615) :
+    retVal (runRet (hashArrs bs) (forLoop (hashArrs bs) loop_Hash64V2.body 1 bs.length 0 ρ) loop_Hash64V2.after)
+      = Hash.hash64V2 (some bs) :=
+  hash64V2_fn_bridge _ _ (by decide +kernel) (by decide +kernel) bs hw hne ρ hρ
+
+/-- `stringutil.HashCode`, whole function -/
+theorem hashCode_tied (bs : Bytes) (hw : WFB bs) (ρ : Env) :
+    callLoop (strArrs bs) loop_HashCode.pre loop_HashCode.body loop_HashCode.after 1 bs.length ρ
+      = StrHash.hashCode bs :=
+  hashCode_fn_bridge _ _ _ (by decide +kernel) (by decide +kernel) (by decide +kernel) bs hw ρ
+
+example : WFB [104, 105] := by decide
 
 end C15Gen
